@@ -419,7 +419,9 @@ def pattern_job(args):
                     obs.append(" ".join(str(x) for x in o))
                     if o[0] and res["done"] is None:
                         res["done"] = t; res["errors"] = o[1] if kind == "chk" else None; tail = t + 10
-                if tail is not None and t >= tail and not inflight:
+                # `done` only says that every pair has been handed to the DMA writer: its FIFO may still hold words, so the run goes on
+                # until they have left on the port (or the cycle budget is used up)
+                if tail is not None and t >= tail and not inflight and (kind != "gen" or (len(res["cmds"]) >= npairs and len(res["datas"]) >= npairs)):
                     break
                 start = 0
                 if not started and t >= 1 and rnd.random() < 0.5:
